@@ -38,6 +38,11 @@ CLAIMED = {
    note="Trusted: Coq kernel + vm_compute; correspondence driver + virtual-time loop; wait_for_response abstracted to handled/timed-out (its polling is C06/C07). One genuine defect repaired (fix c80e92e: chain never ended when length is a multiple of 39). Zero-length requests have no segments and cannot complete (excluded: 0 < len). Closed under the global context.",
    technique="Rocq proof by inductive invariant over arbitrary event lists (accumulator = prefix of the chain) + list/slice lemmas for the chain + differential correspondence under fault scripts",
    design="3/C01"),
+ "C14": dict(
+   text="Machine-checked, complete finite sweeps through the kernel's IEEE binary64 arithmetic (= CPython float) of a model of GeckoTempStructAccessor and GeckoWaterHeater: set(get r) = r for ALL 65,536 raw words in both units; presentation strictly increasing over all adjacent words; every decimal temperature k/100, 0 <= k <= 20000, both units, is written within one device step and order is preserved (adjacent sweep lifted to all pairs by induction); limits follow the unit and denote the same device steps; operation ladder decided by flags first, then by temperature comparison, exactly one outcome. Correspondence: bit-exact (float.hex) comparison of the real accessor get/set (both setters, both structure classes) and the real heater's limits / symbol / current_operation for all flag-presence combinations.",
+   note="Trusted: Coq kernel + vm_compute and its primitive float/int operations (the only entries Print Assumptions lists); correspondence driver; decimal text parsing modelled as correctly rounded k/100. Partial: transitivity of IEEE '<' is not proved, so the operation clause is stated on float comparison results plus adjacent strict monotonicity; float formatting is not modelled.",
+   technique="Rocq: PrimFloat model, exhaustive vm_compute over the complete finite domains, lifted with forallb_forall + induction",
+   design="3/C14"),
 }
 
 REASON_PENDING = "check not built yet in this round (model and correspondence under construction; see DESIGN.md section 8)"
